@@ -106,7 +106,35 @@ def gen_history(rng, nops, uid0=0, write_only=False):
     return ops
 
 
+STORM_KINDS = ["delete", "replace", "replace_last", "insert", "delete_missing", "upsert1", "upsert3", "singles"]
+
+
+def storm(rng, kind):
+    """70-200 single-event writes of one kind with nothing in between that could flush: only the count threshold
+    (or the age rule) can bound what a crash loses."""
+    ops = gen_history(rng, rng.randrange(3, 10))
+    n0 = 10**6
+    ops.append(dict(op="create_bucket", b="b0"))
+    ops.append(dict(op="bulk", b="b0", evs=[dict(ts=10**15 + i * 1000, dur=1000, data={"uid": n0 + i}) for i in range(250)]))
+    for i in range(rng.randrange(70, 200)):
+        def e(j=0):
+            return dict(ts=10**15 + rng.randrange(0, 10**6) * 1000, dur=rng.randrange(0, 5000), data={"uid": 2 * n0 + 10 * i + j})
+        k = kind if kind != "singles" else rng.choice(["delete", "replace", "replace_last", "insert", "upsert1"])
+        if k == "upsert1":
+            ops.append(dict(op="upsert", b="b0", items=[dict(ev=e(), pick=rng.randrange(1000))]))
+        elif k == "upsert3":
+            ops.append(dict(op="upsert", b="b0", items=[dict(ev=e(j), pick=rng.randrange(1000)) for j in range(3)]))
+        else:
+            ops.append(dict(op=k, b="b0", pick=rng.randrange(1000), ev=e(), n=i))
+    return ops
+
+
 def gen_case(rng, ctx):
+    n_gen = ctx.counters.get("cases_generated", 0)
+    ctx.count("cases_generated")
+    if n_gen < 2:
+        # every run starts with 32 storms (16 workers x 2) that cover each write kind four times on the lazy store
+        return dict(kind="inproc", backend="sqlite", ops=storm(rng, STORM_KINDS[(2 * ctx.widx + n_gen) % len(STORM_KINDS)]))
     backend = "sqlite" if rng.random() < 0.65 else "peewee"
     r = rng.random()
     if r < (0.3 if ctx.tier == "quick" else 0.3):
@@ -115,18 +143,7 @@ def gen_case(rng, ctx):
         return dict(kind="real", backend=backend, ops=ops, mode=rng.choice(["sigkill", "sigkill", "sigkill", "_exit", "exit", "parentkill"]),
                     every=ctx.tier == "thorough", k=rng.randrange(1, 200), delay_us=rng.randrange(0, 3000))
     if r < 0.4:
-        # a storm of one kind of single-event write with nothing else that could flush in between
-        ops = gen_history(rng, rng.randrange(3, 10))
-        n0 = 10**6
-        ops.append(dict(op="create_bucket", b="b0"))
-        ops.append(dict(op="bulk", b="b0", evs=[dict(ts=10**15 + i * 1000, dur=1000, data={"uid": n0 + i}) for i in range(250)]))
-        kind = rng.choice(["delete", "delete", "replace", "replace_last", "insert", "delete_missing", "upsert1"])
-        for i in range(rng.randrange(55, 200)):
-            e = dict(ts=10**15 + rng.randrange(0, 10**6) * 1000, dur=rng.randrange(0, 5000), data={"uid": 2 * n0 + i})
-            if kind == "upsert1":
-                ops.append(dict(op="upsert", b="b0", items=[dict(ev=e, pick=rng.randrange(1000))]))
-            else:
-                ops.append(dict(op=kind, b="b0", pick=rng.randrange(1000), ev=e, n=i))
+        ops = storm(rng, rng.choice(STORM_KINDS))
     elif r < 0.5:
         ops = gen_history(rng, rng.randrange(200, 400), write_only=True)
     else:
